@@ -255,8 +255,18 @@ def cli_variants(rng, base, bl, al):
     for _ in range(2):
         out.append(dict(rng.choice(good), define=rng.choice(defs)))
         good.append(out[-1])
-    if rng.random() < 0.5: out.append(dict(rng.choice(good), select=[rng.choice(["m0", "m1", "?m2"])]))
-    if rng.random() < 0.4: out.append(dict(rng.choice(good), disable=[rng.choice(["m0", "m1", "m2"])]))
+    # --select / --disable lists: single, several, the same names in another order, with a duplicate
+    mods = ["m0", "m1", "m2", "m3", "?m2", "?m4"]
+    if rng.random() < 0.6:
+        sel = rng.sample(mods, rng.randint(1, 3)); c = rng.choice(good)
+        out.append(dict(c, select=sel))
+        if len(sel) > 1: out.append(dict(c, select=sel[::-1]))
+        if rng.random() < 0.3: out.append(dict(c, select=sel + sel[:1]))
+        good += out[-3:]
+    if rng.random() < 0.5:
+        dis = rng.sample(mods[:4], rng.randint(1, 2)); c = rng.choice(good)
+        out.append(dict(c, disable=dis))
+        if len(dis) > 1: out.append(dict(c, disable=dis[::-1]))
     if rng.random() < 0.6:
         n = rng.randint(2, 3)
         out.append(dict(rng.choice(out[:4]), partition=(rng.randint(1, n), n)))
